@@ -3,7 +3,7 @@
    Graph   = adjacency list, node ids and weights are integers.  Weight unit: centimetre,
              w_cm = round (100 * weight_in_m): the 0.01 "non-fibre hop" weights of gnpy are exactly 1,
              fibre spans are their length in cm.
-   Models  : ispart (request.py:956-967), unique_ordered (utils.py), explicit_path (request.py:1278-1307),
+   Models  : ispart (request.py:956-967), unique_ordered (utils.py), explicit_path (request.py:1278-1308, validated),
              compute_constrained_path (330-379) = model_ccp, correct_json_route_list (1060-1105, per request),
              find_reversed_path (922-953).
    Spec    : paths / all_routes = complete DFS enumeration of simple paths, route_ok = validator,
@@ -171,7 +171,7 @@ Fixpoint chain (n : net) (o0 : Z) (rest : list Z) (acc : list Z) : option (list 
       end
   end.
 
-Definition explicit_path (n : net) (node_list : list Z) (s t : Z) : option (list Z) :=
+Definition explicit_path_raw (n : net) (node_list : list Z) (s t : Z) : option (list Z) :=
   let path_oms := unique_ordered (flat_map (fun e => match oms_of n e with Some o => [o] | None => [] end) node_list) in
   match path_oms with
   | [] => None
@@ -194,6 +194,17 @@ Definition explicit_path (n : net) (node_list : list Z) (s t : Z) : option (list
       end
   end.
 
+(* the end of explicit_path (fix bd5aee7e): the spelled list is only returned when it ends at the destination, every
+   consecutive pair is an edge and the whole include list is crossed in order.  unique_ordered output is duplicate-free
+   and starts with the source, so this is exactly route_ok. *)
+Definition explicit_check (n : net) (node_list : list Z) (t : Z) (p : list Z) : bool :=
+  lastb p t && walkb (ngraph n) p && ispart node_list p.
+Definition explicit_path (n : net) (node_list : list Z) (s t : Z) : option (list Z) :=
+  match explicit_path_raw n node_list s t with
+  | Some p => if explicit_check n node_list t p then Some p else None
+  | None => None
+  end.
+
 (* ------------------------------------------------------------------ compute_constrained_path (request.py:330-379)
    nodes_list / loose (true = STRICT) are the request's lists *including* the appended destination. *)
 Inductive ccp := CExplicit (p : list Z) | CSearch (o : outcome).
@@ -203,24 +214,6 @@ Definition model_ccp (n : net) (s t : Z) (nodes_list : list Z) (strict_list : li
   else
     let inc := removelast nodes_list in
     match explicit_path n inc s t with
-    | Some p => Ok (CExplicit p)
-    | None => Ok (CSearch (model_route (ngraph n) s t inc (existsb (fun b => b) (removelast strict_list))))
-    end.
-
-(* PROPOSED REPAIR of F11 / F11b -- not the code that is in /repo today: explicit_path only answers when the path it
-   spells is a route of the request (walk, loop-free, right ends, whole include list crossed in order); otherwise the
-   ordinary search decides.  After the fix commit, Run/C11.v switches from model_ccp to model_ccp_checked. *)
-Definition explicit_path_checked (n : net) (inc : list Z) (s t : Z) : option (list Z) :=
-  match explicit_path n inc s t with
-  | Some p => if route_ok (ngraph n) s t inc p then Some p else None
-  | None => None
-  end.
-
-Definition model_ccp_checked (n : net) (s t : Z) (nodes_list : list Z) (strict_list : list bool) : res ccp :=
-  if negb (last nodes_list (t + 1) =? t) then Err "ValueError:last node should be destination"
-  else
-    let inc := removelast nodes_list in
-    match explicit_path_checked n inc s t with
     | Some p => Ok (CExplicit p)
     | None => Ok (CSearch (model_route (ngraph n) s t inc (existsb (fun b => b) (removelast strict_list))))
     end.
